@@ -641,6 +641,124 @@ def translate_ssh(repo, out):
     out.append("")
 
 
+# ------------------------------------------------------------------ linux/copy.py: the scp command line
+def translate_scp(repo, out):
+    tree = parse(repo, "tbot/machine/linux/copy.py")
+    f = find_func(tree, "_scp_copy")
+    kwonly = [a.arg for a in f.args.kwonlyargs]
+    need(kwonly == ["local_path", "remote_path", "copy_to_remote", "username", "hostname", "ignore_hostkey", "port", "ssh_config",
+                    "authenticator", "use_multiplexing"] and not f.args.args, f"_scp_copy has unexpected parameters {kwonly}")
+    ENV = {"str(port)": "c_port c", "username": "c_user c", "hostname": "c_host c", "authenticator.password": "pw",
+           "authenticator.get_key_for_host(local_host)": "k", "multiplexing_dir.at_host(local_host)": "muxdir",
+           "local_path": "localp", "remote_path.at_host(remote_path.host)": "remotep"}
+
+    def word(e):
+        if isinstance(e, ast.Constant) and isinstance(e.value, str):
+            return codepoints(e.value)
+        src = ast.unparse(e)
+        if src in ENV:
+            return ENV[src]
+        if isinstance(e, ast.JoinedStr):
+            parts = []
+            for v in e.values:
+                if isinstance(v, ast.Constant):
+                    parts.append(codepoints(v.value))
+                else:
+                    need(isinstance(v, ast.FormattedValue) and v.conversion == -1 and v.format_spec is None and ast.unparse(v.value) in ENV,
+                         f"scp command line: cannot translate the f-string part {ast.unparse(v)!r}")
+                    parts.append(ENV[ast.unparse(v.value)])
+            return "(" + " ++ ".join(parts) + ")"
+        raise Untranslatable(f"scp command line: cannot translate the word {src!r}")
+
+    def lst(e, cur):
+        """a list-valued expression -> Coq term; `cur` = the Coq name currently bound to scp_command"""
+        if isinstance(e, ast.Name):
+            need(e.id in ("scp_command", "hk_disable"), f"scp command line: unexpected list variable {e.id}")
+            return cur if e.id == "scp_command" else "hk"
+        if isinstance(e, ast.BinOp) and isinstance(e.op, ast.Add):
+            return f"({lst(e.left, cur)} ++ {lst(e.right, cur)})"
+        if isinstance(e, ast.ListComp):
+            need(ast.unparse(e) == "[arg for opt in ssh_config for arg in ['-o', opt]]", f"unexpected comprehension {ast.unparse(e)!r}")
+            return "flat_map (fun opt => [" + codepoints("-o") + "; opt]) (c_opts c)"
+        need(isinstance(e, ast.List), f"scp command line: expected a list, got {ast.unparse(e)!r}")
+        segs, run = [], []
+        for x in e.elts:
+            if isinstance(x, ast.Starred):
+                if run:
+                    segs.append("[" + "; ".join(run) + "]")
+                    run = []
+                segs.append(lst(x.value, cur))
+            else:
+                run.append(word(x))
+        if run:
+            segs.append("[" + "; ".join(run) + "]")
+        return "(" + " ++ ".join(segs) + ")" if segs else "[]"
+
+    lets, cur, n = [], None, 0
+    final = None
+    for st in f.body:
+        src = ast.unparse(st)
+        if src == "local_host = local_path.host":
+            continue
+        if isinstance(st, ast.Assign) and ast.unparse(st.targets[0]) == "hk_disable":
+            v = st.value
+            need(isinstance(v, ast.IfExp) and ast.unparse(v.test) == "ignore_hostkey", "hk_disable is not `[...] if ignore_hostkey else [...]`")
+            lets.append(f"let hk := if c_ign c then {lst(v.body, cur)} else {lst(v.orelse, cur)} in")
+        elif isinstance(st, ast.Assign) and ast.unparse(st.targets[0]) == "scp_command":
+            n += 1
+            lets.append(f"let cmd{n} := {lst(st.value, cur)} in")
+            cur = f"cmd{n}"
+        elif isinstance(st, ast.If) and ast.unparse(st.test) == "use_multiplexing":
+            need(not st.orelse and cur is not None, "unexpected else of `if use_multiplexing`")
+            acc = cur
+            for b in st.body:
+                if ast.unparse(b) == "multiplexing_dir = local_host.workdir / '.ssh-multi'":
+                    continue
+                need(isinstance(b, ast.AugAssign) and ast.unparse(b.target) == "scp_command" and isinstance(b.op, ast.Add),
+                     f"unexpected statement in the multiplexing block: {ast.unparse(b)!r}")
+                acc = f"({acc} ++ {lst(b.value, cur)})"
+            n += 1
+            lets.append(f"let cmd{n} := if c_mux c then {acc} else {cur} in")
+            cur = f"cmd{n}"
+        elif isinstance(st, ast.If) and ast.unparse(st.test).startswith("isinstance(authenticator,"):
+            branches, node = {}, st
+            while True:
+                kind = ast.unparse(node.test.args[1])
+                need(len(node.body) == 1, f"the {kind} branch has more than one statement")
+                b = node.body[0]
+                if isinstance(b, ast.AugAssign):
+                    need(ast.unparse(b.target) == "scp_command" and isinstance(b.op, ast.Add), "unexpected augmented assignment in the authenticator chain")
+                    branches[kind] = f"({cur} ++ {lst(b.value, cur)})"
+                else:
+                    need(isinstance(b, ast.Assign) and ast.unparse(b.targets[0]) == "scp_command", f"the {kind} branch does not assign scp_command")
+                    branches[kind] = lst(b.value, cur)
+                if len(node.orelse) == 1 and isinstance(node.orelse[0], ast.If):
+                    node = node.orelse[0]
+                    continue
+                need(any(isinstance(x, ast.Raise) for x in node.orelse), "the authenticator chain does not end by raising")
+                break
+            need(set(branches) == {"auth.NoneAuthenticator", "auth.PrivateKeyAuthenticator", "auth.PasswordAuthenticator"}, f"unexpected authenticator kinds {sorted(branches)}")
+            n += 1
+            lets.append(f"let cmd{n} := match c_auth c with ANone => {branches['auth.NoneAuthenticator']} | AKey k => {branches['auth.PrivateKeyAuthenticator']} "
+                        f"| APass pw => {branches['auth.PasswordAuthenticator']} end in")
+            cur = f"cmd{n}"
+        elif isinstance(st, ast.If) and ast.unparse(st.test) == "copy_to_remote":
+            def callargs(body):
+                need(len(body) == 1 and isinstance(body[0], ast.Expr) and isinstance(body[0].value, ast.Call)
+                     and ast.unparse(body[0].value.func) == "local_host.exec0" and not body[0].value.keywords, "a copy branch is not one local_host.exec0(...)")
+                return lst(ast.List(elts=body[0].value.args, ctx=ast.Load()), cur)
+            final = f"if to_remote then {callargs(st.body)} else {callargs(st.orelse)}"
+        else:
+            raise Untranslatable(f"_scp_copy: unexpected statement {src[:80]!r}")
+    need(final is not None, "_scp_copy does not end with `if copy_to_remote:`")
+    out.append("(* from tbot/machine/linux/copy.py: _scp_copy *)")
+    out.append("Definition gen_scp_argv (c : scfg) (muxdir : list N) (to_remote : bool) (localp remotep : list N) : list (list N) :=")
+    for l in lets:
+        out.append("  " + l)
+    out.append("  " + final + ".")
+    out.append("")
+
+
 def translate(repo):
     out = ["(* GENERATED by tools/translate.py from the current source of the repository -- do not edit *)",
            "From TV Require Import Base Regex Channel LogEvent Sh SshScp.", ""]
@@ -655,6 +773,7 @@ def translate(repo):
     translate_status(repo, out)
     translate_env(repo, out)
     translate_ssh(repo, out)
+    translate_scp(repo, out)
     return "\n".join(out) + "\n"
 
 
